@@ -681,99 +681,7 @@ func runC11(c *core.Ctx) core.Meta {
 
 	// ---------------- R11.3 splitting loops ----------------
 	st3 := c.Rule("R11.3", "every splitting loop (remaining>0; remaining-=X) takes X=min(remaining, unit remainder depending on the current address), advances every cursor by the same X, slices data as [off:off+X] and requests exactly X bytes", 6)
-	for _, p := range []*PkgInfo{pd, pc, pe} {
-		for _, fn := range p.Funcs {
-			for _, sl := range findSplitLoops(fn) {
-				st3.Instances++
-				c.MarkAnalysed(fn)
-				name := core.FuncName(fn)
-				X := sl.chunk
-				a, b, ok, why := minOf(X)
-				st3.Ob(ok)
-				if !ok {
-					c.ReportAt("R11.3", fn, sl.rem.Pos(), "chunk:min", "the chunk size is not min(remaining, bytes left in the unit): "+why)
-				} else {
-					// one alternative is the remaining counter, the other depends on an address cursor of the loop
-					var unit ssa.Value
-					switch {
-					case core.StripConv(a) == ssa.Value(sl.rem):
-						unit = b
-					case core.StripConv(b) == ssa.Value(sl.rem):
-						unit = a
-					}
-					st3.Ob(unit != nil)
-					if unit == nil {
-						c.ReportAt("R11.3", fn, sl.rem.Pos(), "chunk:remaining", "neither alternative of the chunk size is the remaining byte count")
-					} else {
-						dep := dependsOn(unit, func(v ssa.Value) bool {
-							ph, ok := v.(*ssa.Phi)
-							return ok && ph.Block() == sl.header && ph != sl.rem
-						}, map[ssa.Value]bool{})
-						st3.Ob(dep)
-						st3.Sample("%s: chunk=min(remaining, %s)", name, short(prov.Of(unit)))
-						if !dep {
-							c.ReportAt("R11.3", fn, sl.rem.Pos(), "chunk:unit", "the unit remainder ("+short(prov.Of(unit))+") does not depend on the current address: chunks ignore page / cache-line boundaries")
-						}
-					}
-				}
-				// other cursors
-				for _, in := range sl.header.Instrs {
-					phi, isPhi := in.(*ssa.Phi)
-					if !isPhi {
-						break
-					}
-					if phi == sl.rem {
-						continue
-					}
-					for _, e := range phi.Edges {
-						bo, isB := e.(*ssa.BinOp)
-						if !isB || (bo.Op != token.ADD && bo.Op != token.SUB) {
-							continue
-						}
-						var step ssa.Value
-						if bo.X == ssa.Value(phi) {
-							step = bo.Y
-						} else if bo.Y == ssa.Value(phi) && bo.Op == token.ADD {
-							step = bo.X
-						} else {
-							continue
-						}
-						okS := step == X && bo.Op == token.ADD
-						st3.Ob(okS)
-						if !okS {
-							c.ReportAt("R11.3", fn, bo.Pos(), "cursor:"+core.PinnedName(fn, phi.Comment), fmt.Sprintf("cursor %s advances by %s while the remaining count decreases by %s", phi.Comment, short(prov.Of(step)), short(prov.Of(X))))
-						}
-					}
-				}
-				// slices and sizes inside the loop
-				for _, blk := range fn.Blocks {
-					if !sl.header.Dominates(blk) {
-						continue
-					}
-					for _, in := range blk.Instrs {
-						if s, isS := in.(*ssa.Slice); isS && s.Low != nil && s.High != nil {
-							hb, isB := s.High.(*ssa.BinOp)
-							okSl := isB && hb.Op == token.ADD && ((hb.X == s.Low && hb.Y == X) || (hb.Y == s.Low && hb.X == X))
-							st3.Ob(okSl)
-							if !okSl {
-								c.ReportAt("R11.3", fn, s.Pos(), "slice", "a buffer is sliced as ["+short(prov.Of(s.Low))+":"+short(prov.Of(s.High))+"], not [cursor:cursor+chunk]")
-							}
-						}
-						if cc := core.CallOf(in); cc != nil {
-							if f := core.CalleeFunc(in); f != nil && (f.Name() == "WithByteSize" || (f.Name() == "Read" && strings.HasSuffix(core.FuncID(f), "Storage.Read"))) {
-								arg := cc.Args[len(cc.Args)-1]
-								okB := arg == X
-								st3.Ob(okB)
-								if !okB {
-									c.ReportAt("R11.3", fn, in.Pos(), "size", "the transaction size is "+short(prov.Of(arg))+", not the chunk size")
-								}
-							}
-						}
-					}
-				}
-			}
-		}
-	}
+	checkSplitLoops(c, st3, "R11.3", []*PkgInfo{pd, pc, pe}, prov)
 	// physical address of each piece: page.PAddr + (addr - page.VAddr)
 	for _, p := range []*PkgInfo{pd, pe} {
 		p.Instrs(func(fn *ssa.Function, in ssa.Instruction) {
@@ -1260,4 +1168,104 @@ func returnedConstBool(r *ssa.Return) (val, ok bool) {
 		}
 	}
 	return false, false
+}
+
+// checkSplitLoops: the splitting loops of a copy path (R11.3; shared with C18 as
+// R18.8, because a chunk that ignores the page boundary is only wrong where
+// consecutive virtual pages are not physically consecutive: distributed buffers
+// and unified devices).
+func checkSplitLoops(c *core.Ctx, st3 *core.RuleStat, rule string, pkgs []*PkgInfo, prov *core.Prov) {
+	for _, p := range pkgs {
+		for _, fn := range p.Funcs {
+			for _, sl := range findSplitLoops(fn) {
+				st3.Instances++
+				c.MarkAnalysed(fn)
+				name := core.FuncName(fn)
+				X := sl.chunk
+				a, b, ok, why := minOf(X)
+				st3.Ob(ok)
+				if !ok {
+					c.ReportAt(rule, fn, sl.rem.Pos(), "chunk:min", "the chunk size is not min(remaining, bytes left in the unit): "+why)
+				} else {
+					// one alternative is the remaining counter, the other depends on an address cursor of the loop
+					var unit ssa.Value
+					switch {
+					case core.StripConv(a) == ssa.Value(sl.rem):
+						unit = b
+					case core.StripConv(b) == ssa.Value(sl.rem):
+						unit = a
+					}
+					st3.Ob(unit != nil)
+					if unit == nil {
+						c.ReportAt(rule, fn, sl.rem.Pos(), "chunk:remaining", "neither alternative of the chunk size is the remaining byte count")
+					} else {
+						dep := dependsOn(unit, func(v ssa.Value) bool {
+							ph, ok := v.(*ssa.Phi)
+							return ok && ph.Block() == sl.header && ph != sl.rem
+						}, map[ssa.Value]bool{})
+						st3.Ob(dep)
+						st3.Sample("%s: chunk=min(remaining, %s)", name, short(prov.Of(unit)))
+						if !dep {
+							c.ReportAt(rule, fn, sl.rem.Pos(), "chunk:unit", "the unit remainder ("+short(prov.Of(unit))+") does not depend on the current address: chunks ignore page / cache-line boundaries")
+						}
+					}
+				}
+				// other cursors
+				for _, in := range sl.header.Instrs {
+					phi, isPhi := in.(*ssa.Phi)
+					if !isPhi {
+						break
+					}
+					if phi == sl.rem {
+						continue
+					}
+					for _, e := range phi.Edges {
+						bo, isB := e.(*ssa.BinOp)
+						if !isB || (bo.Op != token.ADD && bo.Op != token.SUB) {
+							continue
+						}
+						var step ssa.Value
+						if bo.X == ssa.Value(phi) {
+							step = bo.Y
+						} else if bo.Y == ssa.Value(phi) && bo.Op == token.ADD {
+							step = bo.X
+						} else {
+							continue
+						}
+						okS := step == X && bo.Op == token.ADD
+						st3.Ob(okS)
+						if !okS {
+							c.ReportAt(rule, fn, bo.Pos(), "cursor:"+core.PinnedName(fn, phi.Comment), fmt.Sprintf("cursor %s advances by %s while the remaining count decreases by %s", phi.Comment, short(prov.Of(step)), short(prov.Of(X))))
+						}
+					}
+				}
+				// slices and sizes inside the loop
+				for _, blk := range fn.Blocks {
+					if !sl.header.Dominates(blk) {
+						continue
+					}
+					for _, in := range blk.Instrs {
+						if s, isS := in.(*ssa.Slice); isS && s.Low != nil && s.High != nil {
+							hb, isB := s.High.(*ssa.BinOp)
+							okSl := isB && hb.Op == token.ADD && ((hb.X == s.Low && hb.Y == X) || (hb.Y == s.Low && hb.X == X))
+							st3.Ob(okSl)
+							if !okSl {
+								c.ReportAt(rule, fn, s.Pos(), "slice", "a buffer is sliced as ["+short(prov.Of(s.Low))+":"+short(prov.Of(s.High))+"], not [cursor:cursor+chunk]")
+							}
+						}
+						if cc := core.CallOf(in); cc != nil {
+							if f := core.CalleeFunc(in); f != nil && (f.Name() == "WithByteSize" || (f.Name() == "Read" && strings.HasSuffix(core.FuncID(f), "Storage.Read"))) {
+								arg := cc.Args[len(cc.Args)-1]
+								okB := arg == X
+								st3.Ob(okB)
+								if !okB {
+									c.ReportAt(rule, fn, in.Pos(), "size", "the transaction size is "+short(prov.Of(arg))+", not the chunk size")
+								}
+							}
+						}
+					}
+				}
+			}
+		}
+	}
 }
